@@ -282,7 +282,7 @@ def generate(unit, repo, vacuity_fn=None):
             edits.append(Edit(toks[fn.body_open].start, toks[fn.body_open].start, contract + '    ', 'A1'))
             stats['A1'] += 1
         bs = fs.body_start
-        if vacuity_fn == qual:
+        if vacuity_fn == qual or (vacuity_fn == '*' and not fs.external):
             bs = '\n        assert(false); // VACUITY-PROBE\n' + bs
         if bs:
             edits.append(Edit(toks[fn.body_open].end, toks[fn.body_open].end, '\n' + bs, 'A4'))
